@@ -7,6 +7,9 @@
 //!   stale(v): node label VRF(label, stale, v), leaf hash H(stale_value, ep[v+1])             v = 1..n
 //! plus leaves of other labels, whose node labels are never VRF outputs for this label.
 //!
+//! "Natively" below means the build `cargo kani playback` makes (cfg(kani) AND cfg(test)); the
+//! verification build is cfg(kani) without cfg(test).
+//!
 //! Compositional step (justified by C05, within its bounds): against the root of a canonical
 //! trie, `verify_membership` accepts (label, hash) iff it is a node of the tree and
 //! `verify_nonmembership` accepts a label iff it is not a leaf. Under Kani the two functions are
@@ -148,17 +151,17 @@ pub fn vnm_oracle<TC: Configuration>(_root_hash: Digest, proof: &NonMembershipPr
 // Proof material. Under Kani the tree proofs are placeholders (the oracle ignores everything but
 // label and hash); natively they are the real proofs from the reference trie.
 
-#[cfg(kani)]
+#[cfg(all(kani, not(test)))]
 pub fn root_hash<TC: Configuration>() -> Digest {
     dg(model::RAW0 + 7)
 }
 
-#[cfg(kani)]
+#[cfg(all(kani, not(test)))]
 pub fn membership_proof<TC: Configuration>(label: NodeLabel, hash: AzksValue) -> MembershipProof {
     MembershipProof { label, hash_val: hash, sibling_proofs: Vec::new() }
 }
 
-#[cfg(kani)]
+#[cfg(all(kani, not(test)))]
 pub fn nonmembership_proof<TC: Configuration>(label: NodeLabel) -> NonMembershipProof {
     let e = crate::trie::empty_elem::<TC>();
     NonMembershipProof {
@@ -169,7 +172,7 @@ pub fn nonmembership_proof<TC: Configuration>(label: NodeLabel) -> NonMembership
     }
 }
 
-#[cfg(not(kani))]
+#[cfg(any(not(kani), test))]
 mod native {
     use super::*;
     use crate::trie::{key_label, key_of, o_is_prefix, Tree, Walk};
@@ -258,5 +261,5 @@ mod native {
         NonMembershipProof { label, longest_prefix: w.at.label, longest_prefix_children: children, longest_prefix_membership_proof: w.membership_proof() }
     }
 }
-#[cfg(not(kani))]
+#[cfg(any(not(kani), test))]
 pub use native::{membership_proof, nonmembership_proof, root_hash};
